@@ -192,9 +192,14 @@ func (s *Translator) translateExactRangeRelationshipPatternToSteps(
 }
 
 func (s *Translator) translateRelationshipPatternToStep(bindingResult BindingResult, part *PatternPart, relationshipPattern *cypher.RelationshipPattern) ([]*BoundIdentifier, error) {
+	numSteps := len(part.TraversalSteps)
+
+	if numSteps == 0 {
+		return nil, fmt.Errorf("relationship pattern encountered before any left node in pattern")
+	}
+
 	var (
 		expansion                     *Expansion
-		numSteps                      = len(part.TraversalSteps)
 		currentStep                   = part.TraversalSteps[numSteps-1]
 		isContinuation                = currentStep.Edge != nil
 		sourceTarget, hasSourceTarget = part.nextSourceTarget()
